@@ -299,5 +299,10 @@ def run(ctx, report: Report) -> None:
     from .e2ematch import text_table
     text_table(ctx, r6)
 
+    # needles: quoting, escapes, comments in the list
+    from .e2etab import equivalent_spellings_table
+    equivalent_spellings_table(ctx, r6, only=(':-soup-contains', 'needle'))
+
+
 
 
